@@ -25,8 +25,14 @@ POOLS = {
 BOUNDS = {
     "S": dict(MaxItems=2, MaxJoins=1, MaxLeaves=2, MaxGroup=2, MaxOrder=2, MaxRows=2, MaxVals=2, MaxSet=2, MaxDefs=2),
     "Q": dict(MaxItems=3, MaxJoins=2, MaxLeaves=3, MaxGroup=3, MaxOrder=3, MaxRows=3, MaxVals=3, MaxSet=3, MaxDefs=4),
-    "T": dict(MaxItems=4, MaxJoins=2, MaxLeaves=4, MaxGroup=4, MaxOrder=3, MaxRows=3, MaxVals=3, MaxSet=3, MaxDefs=4),
+    "T": dict(MaxItems=4, MaxJoins=2, MaxLeaves=4, MaxGroup=4, MaxOrder=4, MaxRows=3, MaxVals=3, MaxSet=3, MaxDefs=4),
 }
+
+
+SLICE_NAMES = ["sel_item_expr", "sel_item_leaf", "sel_item_tree", "sel_items", "sel_nofrom", "sel_star", "sel_from", "sel_on",
+               "sel_where_leaf", "sel_where_tree", "sel_group_count", "sel_group_cols", "sel_group_alias", "sel_order", "sel_limit",
+               "sel_combo", "ins_cols", "ins_row", "ins_rows", "upd_one", "upd_list", "upd_where_leaf", "upd_where_tree", "del_all",
+               "del_leaf", "del_tree", "create_table", "create_database", "use", "show", "given"]
 
 
 def cfg(size, slices, stmts="MC_None", vocab="MC_None", vocab2="MC_None", max_junk=0, max_tail=99, at_end=False,
